@@ -136,10 +136,11 @@ class ChainMonitor(Monitor):
 
 
 def materialize_sub(args, kwargs):
-    if len(args) >= 2 and not isinstance(args[1], (list, tuple, set, frozenset)):
-        args = (args[0], list(args[1]), *args[2:])
-    elif "prefixes" in kwargs and not isinstance(kwargs["prefixes"], (list, tuple, set, frozenset)):
-        kwargs = dict(kwargs, prefixes=list(kwargs["prefixes"]))
+    keep = (list, tuple, set, frozenset)
+    if len(args) >= 2 and not isinstance(args[1], keep):
+        args = (args[0], probe.one_shot_or_list(args[1], keep), *args[2:])
+    elif "prefixes" in kwargs and not isinstance(kwargs["prefixes"], keep):
+        kwargs = dict(kwargs, prefixes=probe.one_shot_or_list(kwargs["prefixes"], keep))
     return args, kwargs
 
 
@@ -150,7 +151,7 @@ class SubconverterMonitor(Monitor):
         sp = domain_spec(args[0], self.name)
         if sp is None:
             return None
-        prefixes = args[1] if len(args) >= 2 else kwargs.get("prefixes")
+        prefixes = probe.items_of(args[1] if len(args) >= 2 else kwargs.get("prefixes"))
         if prefixes is None or not all(isinstance(p, str) for p in prefixes):
             out_of_domain(self.name, "argtype")
             return None
@@ -437,9 +438,9 @@ DEFAULT_DELIMITERS = ("#", "/", "_")
 
 def materialize_discover(args, kwargs):
     if args and not isinstance(args[0], (list, tuple)):
-        args = (list(args[0]), *args[1:])
+        args = (probe.one_shot_or_list(args[0]), *args[1:])
     elif "uris" in kwargs and not isinstance(kwargs["uris"], (list, tuple)):
-        kwargs = dict(kwargs, uris=list(kwargs["uris"]))
+        kwargs = dict(kwargs, uris=probe.one_shot_or_list(kwargs["uris"]))
     return args, kwargs
 
 
@@ -472,7 +473,7 @@ class DiscoverMonitor(Monitor):
 
     def pre(self, fn, args, kwargs):
         a, kw = list(args), dict(kwargs)
-        uris = a.pop(0) if a else kw.pop("uris", None)
+        uris = probe.items_of(a.pop(0) if a else kw.pop("uris", None))
         delimiters = kw.pop("delimiters", None)
         cutoff = kw.pop("cutoff", None)
         meta = kw.pop("metaprefix", "ns")
